@@ -107,7 +107,7 @@ def evaluate(chk, cases, tag):
         if rep and rep[0][0] != rep[0][1] and o[0] == "ok":
             chk.fail("c03-caller-context-changed", "Template.render left the caller's Context changed",
                      {"program": prog, "before": rep[0][0], "after": rep[0][1]})
-        if o[0] == "ok" and len(o[1]) > 60000:
+        if o[0] == "ok" and len(o[1]) > 6000:
             # absurdly long output (never what the reference says for these small programs): no Coq literal for it
             terms.append(None)
             rows[-1][3] = ("err", "other:Output of %d characters" % len(o[1]))
@@ -119,7 +119,7 @@ def evaluate(chk, cases, tag):
         else:
             terms.append("(%s, %s)" % (G.c_prog(prog), R.c_outcome(o)))
     live = [i for i, t in enumerate(terms) if t is not None]
-    bad = set(C.coq_eval_cases("C03", tag, IMPORTS, "core_case", "check_core_lenient", [terms[i] for i in live], shard=150)) if live else set()
+    bad = set(C.coq_eval_cases("C03", tag, IMPORTS, "core_case", "check_core_lenient", [terms[i] for i in live], shard=80)) if live else set()
     for j, i in enumerate(live):
         rows[i][4] = j not in bad
     # self-check of the python port of the reference (used for shrinking only)
